@@ -204,6 +204,24 @@ pub fn generate(rng: &mut Rng, cfg: &HistCfg) -> History {
             Ctor::Spec(gen::spec(rng, &c), scr)
         }
     };
+    // 6 %: the constructor argument is translated so that the regions of the history lie 3e6 .. 8e6 away
+    // from the origin
+    let mut ctor = ctor;
+    if rng.chance(0.06) {
+        let d = gen::far_shift(rng, in_dim);
+        match &mut ctor {
+            Ctor::FromAff(a) => a.shift_function(&d),
+            Ctor::FromPoly(p, ft, ff) => {
+                p.shift_predicate(&d);
+                ft.shift_function(&d);
+                if let Some(f) = ff.as_mut() {
+                    f.shift_function(&d);
+                }
+            }
+            Ctor::Spec(s, _) => s.translate(&d),
+            _ => {}
+        }
+    }
     finish(rng, cfg, ctor, in_dim, out_dim, rg, exact)
 }
 
